@@ -6,10 +6,16 @@ import (
 	"flag"
 	"fmt"
 	"os"
+	"os/exec"
+	"path/filepath"
 	"runtime/debug"
+	"sort"
 	"strconv"
+	"strings"
+	"sync"
 
 	"gogucheck/core"
+	"gogucheck/mutants"
 	"gogucheck/props"
 )
 
@@ -20,6 +26,9 @@ func main() {
 	out := flag.String("out", "/verif/evidence", "evidence directory")
 	known := flag.String("known", "/verif/known_findings.json", "known findings file")
 	list := flag.Bool("list", false, "list properties with a check")
+	mutant := flag.String("mutant", "", "run the property check on one seeded variant (overlay only) and report whether it is detected")
+	selftest := flag.Bool("selftest", false, "run every seeded variant of -property (or of all properties) and print the kill table")
+	replay := flag.String("replay", "", "replay file: re-run the rules and report, per recorded key, whether it still violates")
 	flag.Parse()
 	if *list {
 		for _, id := range props.IDs() {
@@ -33,43 +42,235 @@ func main() {
 			seed = n
 		}
 	}
+	if *mutant != "" {
+		os.Exit(runMutant(*mutant, *repo, *known))
+	}
+	if *selftest {
+		ids := props.IDs()
+		if *prop != "" {
+			ids = []string{*prop}
+		}
+		res := selfTest(ids, *repo, *known, seed)
+		bad := 0
+		for _, r := range res {
+			fmt.Printf("%-10s %-40s %s\n", r.Status, r.ID, r.Detail)
+			if r.Status == "SURVIVED" || r.Status == "ERROR" {
+				bad++
+			}
+		}
+		if bad > 0 {
+			os.Exit(2)
+		}
+		return
+	}
 	c := props.Get(*prop)
 	if c == nil {
 		fmt.Fprintf(os.Stderr, "no check for property %q\n", *prop)
 		os.Exit(2)
 	}
+	if *replay != "" {
+		os.Exit(runReplay(c, *replay, *repo, *known))
+	}
 	os.Exit(run(c, *tier, *repo, *out, *known, seed))
 }
 
-func run(c *props.Check, tier, repo, out, known string, seed int64) (code int) {
-	r := core.NewReport(c.ID, tier, seed)
+// analyse loads the tree (with an optional overlay) and runs one property's rules.
+func analyse(c *props.Check, tier, repo string, overlay map[string][]byte, seed int64) (r *core.Report, err error) {
+	r = core.NewReport(c.ID, tier, seed)
 	r.Explanation = c.Explanation
 	r.Assumptions = c.Assumptions
 	r.NotDecided = c.NotDecided
+	defer func() {
+		if x := recover(); x != nil {
+			fmt.Printf("CHECKER-FAILURE property=%s panic: %v\n%s\n", c.ID, x, debug.Stack())
+			r.Fatal("panic in engine: %v", x)
+		}
+	}()
+	p, err := core.Load(repo, overlay, core.MinPackages)
+	if err != nil {
+		return r, err
+	}
+	r.Extra["packages"] = len(p.Pkgs)
+	r.Extra["source_functions"] = len(p.Funcs)
+	c.Run(p, r)
+	return r, nil
+}
+
+func run(c *props.Check, tier, repo, out, known string, seed int64) int {
 	findings, err := core.LoadFindings(known)
 	if err != nil {
 		fmt.Println("CHECKER-FAILURE", err)
 		return 2
 	}
-	defer func() {
-		if x := recover(); x != nil {
-			fmt.Printf("CHECKER-FAILURE property=%s panic: %v\n%s\n", c.ID, x, debug.Stack())
-			r.Fatal("panic in engine: %v", x)
-			code = r.Finish(out, findings)
-			if code == 0 {
-				code = 2
-			}
-		}
-	}()
-	p, err := core.Load(repo, nil, core.MinPackages)
+	r, err := analyse(c, tier, repo, nil, seed)
 	if err != nil {
 		fmt.Println("CHECKER-FAILURE", err)
 		r.Fatal("%v", err)
 		r.Finish(out, findings)
 		return 2
 	}
-	r.Extra["packages"] = len(p.Pkgs)
-	r.Extra["source_functions"] = len(p.Funcs)
-	c.Run(p, r)
+	if tier == "thorough" {
+		thorough(c, r, repo, known, findings, seed)
+	}
 	return r.Finish(out, findings)
+}
+
+// thorough adds the checker's self-validation: every seeded variant of the property
+// must be reported at the rewritten construct. Skipped when the tree itself violates
+// the property (the run fails anyway).
+func thorough(c *props.Check, r *core.Report, repo, known string, findings []core.Finding, seed int64) {
+	if r.NewViolations(findings) > 0 {
+		r.Extra["variants"] = "skipped: the tree violates the property"
+		return
+	}
+	res := selfTest([]string{c.ID}, repo, known, seed)
+	tried, killed, na := 0, 0, 0
+	var table []map[string]string
+	for _, x := range res {
+		table = append(table, map[string]string{"id": x.ID, "status": x.Status, "detail": x.Detail})
+		switch x.Status {
+		case "KILLED":
+			tried++
+			killed++
+		case "NA":
+			na++
+		default:
+			tried++
+			r.Fatal("SELFTEST-INSENSITIVE variant %s: %s %s", x.ID, x.Status, x.Detail)
+		}
+	}
+	r.Extra["variants"] = map[string]any{"tried": tried, "killed": killed, "not_applicable_on_this_tree": na, "table": table}
+	fmt.Printf("selftest property=%s variants tried=%d killed=%d na=%d\n", c.ID, tried, killed, na)
+}
+
+type mutRes struct{ ID, Status, Detail string }
+
+func selfTest(ids []string, repo, known string, seed int64) []mutRes {
+	var ms []mutants.M
+	for _, id := range ids {
+		ms = append(ms, mutants.For(id)...)
+	}
+	if seed != 0 {
+		// the seed only orders the queue
+		sort.SliceStable(ms, func(i, j int) bool { return (int64(i)*7919+seed)%int64(len(ms)+1) < (int64(j)*7919+seed)%int64(len(ms)+1) })
+	}
+	self, _ := os.Executable()
+	out := make([]mutRes, len(ms))
+	sem := make(chan struct{}, 12)
+	var wg sync.WaitGroup
+	for i := range ms {
+		wg.Add(1)
+		go func(i int) {
+			defer wg.Done()
+			sem <- struct{}{}
+			defer func() { <-sem }()
+			cmd := exec.Command(self, "-mutant", ms[i].ID, "-repo", repo, "-known", known)
+			b, err := cmd.CombinedOutput()
+			lines := strings.Split(strings.TrimSpace(string(b)), "\n")
+			last := lines[len(lines)-1]
+			st := "ERROR"
+			switch {
+			case strings.HasPrefix(last, "MUTANT KILLED"):
+				st = "KILLED"
+			case strings.HasPrefix(last, "MUTANT SURVIVED"):
+				st = "SURVIVED"
+			case strings.HasPrefix(last, "MUTANT NA"):
+				st = "NA"
+			}
+			_ = err
+			out[i] = mutRes{ID: ms[i].ID, Status: st, Detail: strings.TrimSpace(strings.TrimPrefix(strings.TrimPrefix(strings.TrimPrefix(last, "MUTANT KILLED"), "MUTANT SURVIVED"), "MUTANT NA"))}
+		}(i)
+	}
+	wg.Wait()
+	sort.Slice(out, func(i, j int) bool { return out[i].ID < out[j].ID })
+	return out
+}
+
+// runMutant applies one variant through an overlay and runs its property's rules.
+func runMutant(id, repo, known string) int {
+	m := mutants.ByID(id)
+	if m == nil {
+		fmt.Println("MUTANT NA unknown variant", id)
+		return 4
+	}
+	c := props.Get(m.Property)
+	if c == nil {
+		fmt.Println("MUTANT NA no check for", m.Property)
+		return 4
+	}
+	path := filepath.Join(repo, m.File)
+	src, err := os.ReadFile(path)
+	if err != nil {
+		fmt.Println("MUTANT NA", err)
+		return 4
+	}
+	var mutated string
+	if m.Old == "" {
+		mutated = string(src) + m.New
+	} else {
+		if !strings.Contains(string(src), m.Old) {
+			fmt.Println("MUTANT NA pattern no longer occurs in", m.File)
+			return 4
+		}
+		mutated = strings.Replace(string(src), m.Old, m.New, 1)
+	}
+	r, err := analyse(c, "quick", repo, map[string][]byte{path: []byte(mutated)}, 0)
+	if err != nil {
+		fmt.Println("MUTANT NA variant does not load/type-check on this tree:", err)
+		return 4
+	}
+	findings, _ := core.LoadFindings(known)
+	knownKeys := map[string]bool{}
+	for _, f := range findings {
+		if f.Status == "known" && f.Property == m.Property {
+			knownKeys[f.Key()] = true
+		}
+	}
+	var hit []string
+	for _, d := range r.Diags() {
+		if knownKeys[d.Key()] {
+			continue
+		}
+		fmt.Println("  ", d.String())
+		if strings.Contains(d.Key(), m.Expect) {
+			hit = append(hit, d.Key()+" @"+d.Pos)
+		}
+	}
+	if len(hit) > 0 {
+		fmt.Printf("MUTANT KILLED %s\n", hit[0])
+		return 0
+	}
+	fmt.Printf("MUTANT SURVIVED expected a new diagnostic containing %q\n", m.Expect)
+	return 3
+}
+
+// runReplay re-runs the rules and reports, per recorded key, whether it still violates.
+func runReplay(c *props.Check, file, repo, known string) int {
+	keys, err := core.ReplayKeys(file)
+	if err != nil {
+		fmt.Println("CHECKER-FAILURE", err)
+		return 2
+	}
+	r, err := analyse(c, "quick", repo, nil, 0)
+	if err != nil {
+		fmt.Println("CHECKER-FAILURE", err)
+		return 2
+	}
+	now := map[string]core.Diag{}
+	for _, d := range r.Diags() {
+		now[d.Key()] = d
+	}
+	code := 0
+	for _, k := range keys {
+		if d, ok := now[k]; ok {
+			fmt.Println("STILL-VIOLATES", d.String())
+			code = 1
+		} else {
+			fmt.Println("NO-LONGER-REPORTED", k)
+		}
+	}
+	if code == 1 {
+		fmt.Printf("VIOLATION property=%s replay=%s\n", c.ID, file)
+	}
+	return code
 }
